@@ -5,9 +5,9 @@ wt=$1; id=$2
 cd "$wt" || exit 2
 [ -s patch.diff ] || git diff -- kaira > patch.diff
 echo "== demo with change"; PYTHONPATH=$wt timeout 900 /venv/bin/python -W ignore demo_$id.py > /tmp/seedwork/demo_with_$id.log 2>&1; rc1=$?; tail -3 /tmp/seedwork/demo_with_$id.log
-git stash -q -- kaira
+git apply -R patch.diff
 echo "== demo without change"; PYTHONPATH=$wt timeout 900 /venv/bin/python -W ignore demo_$id.py > /tmp/seedwork/demo_without_$id.log 2>&1; rc0=$?; tail -2 /tmp/seedwork/demo_without_$id.log
-git stash pop -q
+git apply patch.diff
 echo "demo_with_change_rc=$rc1 demo_without_change_rc=$rc0"
 echo "== pinned suite with change"
 KAIRA_REPO=$wt PYTHONPATH=$wt /verif/tools/baseline.py -n 12 2>&1 | tail -4
